@@ -428,6 +428,8 @@ def _order_preserving_split(ctx, fn, e, p_values, depth: int = 8) -> tuple[bool,
                 return False, "the value is not split on ','"
             return False, f"`{unparse(e)[:50]}`"
         if isinstance(e, (ast.ListComp, ast.GeneratorExp)) and len(e.generators) == 1 and isinstance(e.elt, ast.Name) and isinstance(e.generators[0].target, ast.Name) and e.elt.id == e.generators[0].target.id:
+            if e.generators[0].ifs:
+                return False, f"items are filtered (`if {unparse(e.generators[0].ifs[0])[:30]}`): a list that then becomes empty is read as 'no list given' and selects the default set"
             e = e.generators[0].iter
             continue
         return False, f"`{unparse(e)[:50]}`"
@@ -524,4 +526,7 @@ def check(ctx, rep):
     rule_cli_exclusive(ctx, rep)
     rule_registry_order(ctx, rep)
     rule_sast_only_source(ctx, rep)
+    from .c15 import rule_one_result
+
+    rule_one_result(ctx, rep)
     rep.not_covered += ["regex/fnmatch semantics over arbitrary pattern lists and registries", "sast_only eligibility beyond its presence in both branches"]
